@@ -212,6 +212,9 @@ M = [
     ("C07", "predicate-failure-aborts-notify", P + "base/events.py",
      "            try:\n                if predicate and not predicate(args):\n                    continue\n            except:\n                # A failing predicate shouldn't prevent notification of other handlers either.\n                LOG.exception(f\"Failed in predicate for {self.name}\")\n                continue\n",
      "            if predicate and not predicate(args):\n                continue\n"),
+    ("C07", "coroutine-subscriber-late-binding", P + "base/events.py",
+     "                async def _run_handler_wrapper(handler=handler, inner_args=inner_args, kwargs=kwargs):",
+     "                async def _run_handler_wrapper():"),
     # ---- C20 ----
     ("C20", "transfer-done-on-done-packet", P + "base/transfer_manager.py",
      "        if not transfer.done() and len(transfer.chunks) == transfer.expected_chunks:",
